@@ -215,6 +215,20 @@ class NotClosed(Exception):
     pass
 
 
+class Model(object):
+    """a stand-in for a run-time object in a closed environment: plain attributes, optional methods (callables given as
+    keyword arguments are called without self), identity-hashed"""
+    _sa_model = True
+
+    def __init__(self, _name='obj', **attrs):
+        self._name = _name
+        for k, v in attrs.items():
+            setattr(self, k, v)
+
+    def __repr__(self):
+        return '<%s>' % self._name
+
+
 class FrozenDict(dict):
     """a constant table as a hashable value (abstract states are kept in sets)"""
 
